@@ -1734,5 +1734,9 @@ def check(ctx):
     tf, en, paths = T.extract(ctx.prog)
     check_tokenizer(ctx, table, tf, en, paths)
     check_list(ctx, classes)
+    # which words are quoted strings rather than checks (C05.QUOTED): a
+    # check taken for a string is dropped from the expression
+    from . import c05 as _c05
+    ctx.borrow_soft('C01.TOKENS', _c05.check_quoted, only=['C05.QUOTED'])
     check_const(ctx)
     check_text_driver(ctx, pstate)
